@@ -965,12 +965,28 @@ package parser
 
 //@ func (p *Parser) parseBooleanExpression
 //@   include ParseFrame
+// C18: a successful parse of an operand reads at least one token (what makes the recursion through '&&' chains terminate)
+//@   ensures [C18:consume-strict] (result2 == nil && old(p.curToken.Type) != token.EOF) ==> Left(p) < old(Left(p))
 //@   ensures [C02,C18:expr-there] result2 == nil ==> result0 != nil
 //@   ensures [C02,C18:binary-ok] (result2 == nil && typeis(result0, ast.BinaryExpression)) ==> ((as(result0, ast.BinaryExpression).Operator == token.AND || as(result0, ast.BinaryExpression).Operator == token.OR)
 //@        && as(result0, ast.BinaryExpression).Left != nil && as(result0, ast.BinaryExpression).Right != nil)
 // C02: negation flips the operator of the parsed leaf in place; the leaf itself (operand, value, raw-value marker, preamble) is what is returned
 //@   exit [C02:leaf-kept] (result2 == nil && single && old(p.peekToken.Type) != token.LPAREN && !(old(p.peekToken.Type) == token.NOT && old(p.peek2Token.Type) == token.LPAREN)) ==> (typeis(result0, ast.OperatorExpression) && as(result0, ast.OperatorExpression) == lastresult(parseLeafBooleanExpression, 0))
 //@   exit [C02:leaf-left] (result2 == nil && !single && old(p.peekToken.Type) != token.LPAREN && !(old(p.peekToken.Type) == token.NOT && old(p.peek2Token.Type) == token.LPAREN)) ==> lastarg(parseRightSideExpression, 1) == lastresult(parseLeafBooleanExpression, 0)
+// C02: precedence, one level at a time. A parenthesised group is parsed as a whole expression (not as a single operand) with
+// the pending negation: '(' keeps it, '!(' inverts it ...
+//@   exit [C02:nested-flag] (result2 == nil && (old(p.peekToken.Type) == token.LPAREN || (old(p.peekToken.Type) == token.NOT && old(p.peek2Token.Type) == token.LPAREN))) ==>
+//@        (lastarg(parseBooleanExpression, 1) == false && lastarg(parseBooleanExpression, 2) == (old(p.peekToken.Type) == token.LPAREN ? negated : !negated)
+//@         && nestedExpression == lastresult(parseBooleanExpression, 0))
+// ... as the right operand of '&&' (single) the group is the whole result: a following '&&' / '||' is left to the caller,
+// which is what makes '&&' bind tighter than '||' ...
+//@   exit [C02:nested-single] (result2 == nil && single && (old(p.peekToken.Type) == token.LPAREN || (old(p.peekToken.Type) == token.NOT && old(p.peek2Token.Type) == token.LPAREN))) ==> result0 == nestedExpression
+// ... otherwise the group is the left operand of what follows it
+//@   exit [C02:nested-left] (result2 == nil && !single && (old(p.peekToken.Type) == token.LPAREN || (old(p.peekToken.Type) == token.NOT && old(p.peek2Token.Type) == token.LPAREN))) ==>
+//@        (result0 == nestedExpression || (lastarg(parseRightSideExpression, 1) == nestedExpression && lastarg(parseRightSideExpression, 3) == negated && result0 == lastresult(parseRightSideExpression, 0)))
+// a leaf that is not in single mode is the left operand of what follows it, under the same pending negation
+//@   exit [C02:leaf-chain] (result2 == nil && !single && old(p.peekToken.Type) != token.LPAREN && !(old(p.peekToken.Type) == token.NOT && old(p.peek2Token.Type) == token.LPAREN)) ==>
+//@        (lastarg(parseRightSideExpression, 3) == negated && result0 == lastresult(parseRightSideExpression, 0))
 //@   ensures [C06:slot] result2 == nil ==> (ImpOK(result1) && (result1 == nil || fresh(result1)))
 //@   modifies holes
 //@   modifies nstmt
@@ -994,6 +1010,12 @@ package parser
 //@        && as(result0, ast.BinaryExpression).Operator == (negated ? token.AND : token.OR) && as(result0, ast.BinaryExpression).Right == right)
 //@   exit [C02:and-shape] (result2 == nil && old(p.curToken.Type) == token.AND) ==> (grouped != nil && grouped.Left == left && grouped.Operator == (negated ? token.OR : token.AND) && grouped.Right == right)
 //@   ensures [C02:no-op] (old(p.curToken.Type) != token.AND && old(p.curToken.Type) != token.OR) ==> (result2 == nil && result0 == left)
+// C02: '&&' binds tighter than '||': the right operand of '&&' is one operand (single), and the pair is the left side of
+// whatever follows it; the right operand of '||' is everything up to the closing parenthesis
+//@   exit [C02:and-operand] (result2 == nil && old(p.curToken.Type) == token.AND) ==> (lastarg(parseBooleanExpression, 1) == true && lastarg(parseBooleanExpression, 2) == negated && right == lastresult(parseBooleanExpression, 0))
+//@   exit [C02:and-chain] (result2 == nil && old(p.curToken.Type) == token.AND) ==> ((result0 == grouped && p.curToken.Literal == ")")
+//@        || (lastarg(parseRightSideExpression, 1) == grouped && lastarg(parseRightSideExpression, 3) == negated && result0 == lastresult(parseRightSideExpression, 0)))
+//@   exit [C02:or-operand] (result2 == nil && old(p.curToken.Type) == token.OR) ==> (lastarg(parseBooleanExpression, 1) == false && lastarg(parseBooleanExpression, 2) == negated && right == lastresult(parseBooleanExpression, 0))
 //@   ensures [C06:slot] result2 == nil ==> (ImpOK(result1) && (result1 == nil || fresh(result1)))
 //@   modifies holes
 //@   modifies nstmt
@@ -1005,6 +1027,8 @@ package parser
 
 //@ func (p *Parser) parseLeafBooleanExpression
 //@   include ParseFrame
+// C18: a successful parse of an operand reads at least one token (what makes the recursion through '&&' chains terminate)
+//@   ensures [C18:consume-strict] (result2 == nil && old(p.curToken.Type) != token.EOF) ==> Left(p) < old(Left(p))
 //@   ensures [C18:wf-leaf] result2 == nil ==> (result0.PreambleStatement != nil ==> result0.PreambleStatement.Name != nil)
 //@   ensures [C02,C18:leaf-there] result2 == nil ==> (result0 != nil && fresh(result0))
 //@   ensures [C18:consume-strict] (result2 == nil && (old(p.curToken.Type) != token.EOF || NoNul(p.l.input))) ==> Left(p) < old(Left(p))
